@@ -190,6 +190,13 @@ class SeqList:
         return self.expr.sort().basis()
 
 
+class NodeMap:
+    """Python dict from formulas to formulas of unknown size: a z3 array (the values) and a z3 set (the keys).
+    Look-up, membership and item assignment only; no iteration."""
+    def __init__(self, arr, dom):
+        self.arr, self.dom = arr, dom
+
+
 class PrefList:
     """Python list = an opaque prefix (never touched) followed by explicit items.
     Operations that would reach into the prefix cut the path (stated depth bound)."""
@@ -431,6 +438,20 @@ class Exec:
         s.set("timeout", self.PROVE_TIMEOUT_MS)
         s.set("rlimit", self.PROVE_RLIMIT)
         r = s.check()
+        # a counter-model must respect the real meaning of the tracked arithmetic functions (pow2, band, bor, bxor are
+        # uninterpreted for the solver and pinned by lemma instances only): where it does not, the concrete instances it
+        # violates are added and the query repeated - a model that survives is a model of the real arithmetic
+        rounds = 0
+        while r == z3.sat and rounds < 12:
+            mdl = s.model()
+            inst = self._in_child(lambda: self._violated_arith_instances(mdl), 20)
+            if not isinstance(inst, list) or not inst:
+                break
+            rounds += 1
+            fns = {"pow2": S.pow2.f, "band": S.band.f, "bor": S.bor.f, "bxor": S.bxor.f}
+            for nm, args, want in inst:
+                s.add(fns[nm](*[z3.IntVal(int(a)) for a in args]) == z3.IntVal(int(want)))
+            r = s.check()
         out = {"name": name, "status": None, "backend": "z3", "time": 0.0, "model": None, "smt2": None,
                "pc": None}
         if r == z3.unsat:
@@ -451,7 +472,40 @@ class Exec:
         out["time"] = round(time.time() - t0, 4)
         return out
 
+    def _violated_arith_instances(self, model):
+        out = []
+        try:
+            for p in list(S.pow2.apps.values()):
+                e = model.eval(p.arg(0), model_completion=True)
+                v = model.eval(p, model_completion=True)
+                if not (z3.is_int_value(e) and z3.is_int_value(v)):
+                    continue
+                ev = e.as_long()
+                if ev > 4096:
+                    continue
+                want = (1 << ev) if ev >= 0 else 1
+                if v.as_long() != want:
+                    out.append(("pow2", [str(ev)], str(want)))
+            for nm, f, pyop in (("band", S.band, lambda a, b: a & b), ("bor", S.bor, lambda a, b: a | b), ("bxor", S.bxor, lambda a, b: a ^ b)):
+                for t in list(f.apps.values()):
+                    a = model.eval(t.arg(0), model_completion=True)
+                    b = model.eval(t.arg(1), model_completion=True)
+                    v = model.eval(t, model_completion=True)
+                    if not (z3.is_int_value(a) and z3.is_int_value(b) and z3.is_int_value(v)):
+                        continue
+                    av, bv = a.as_long(), b.as_long()
+                    if av < 0 or bv < 0 or av.bit_length() > 4096 or bv.bit_length() > 4096:
+                        continue
+                    if v.as_long() != pyop(av, bv):
+                        out.append((nm, [str(av), str(bv)], str(pyop(av, bv))))
+        except Exception:
+            return []
+        return out[:64]
+
     def _witness_in_child(self, model, limit_s=20):
+        return self._in_child(lambda: self.witness_fn(model), limit_s)
+
+    def _in_child(self, fn, limit_s=20):
         """Model evaluation through the Python API crashed / hung z3 5.1 on some
         models: it runs in a forked child so that it cannot take the run down."""
         import json
@@ -467,7 +521,7 @@ class Exec:
                 os.dup2(dn, 1)
                 os.dup2(dn, 2)
                 try:
-                    data = json.dumps(self.witness_fn(model), default=str)
+                    data = json.dumps(fn(), default=str)
                 except Exception as e:
                     data = json.dumps({"witness-error": repr(e)})
                 os.write(wfd, data.encode())
@@ -818,6 +872,9 @@ class Exec:
         opn = _BINOPS[type(st.op)]
         if isinstance(cur, list) and opn == "+":
             cur.extend(self.world.iterate(self, rhs))     # in place, like list.__iadd__
+            return
+        if isinstance(cur, PrefList) and opn == "+":
+            cur.items.extend(self.world.iterate(self, rhs))
             return
         self.assign(st.target, self.binop(opn, cur, rhs), fr)
 
